@@ -1,7 +1,7 @@
 (* C07 — @leftrec rules terminate and build the left-nested tree of the longest growth. *)
 From PegV Require Import Utf8 State Terminals Syntax Fields Literals Model FuelMono Leftrec Extracted.
 From PegV Require WellFormed LRTerm.
-From PegV Require Import Conform CleanFrame UsualShape UsualShapeExamples.
+From PegV Require Import Conform CleanFrame UsualShape UsualShapeN UsualShapeExamples.
 
 Theorem C07_facts :
   further_gt Extracted.scfg = true /\ leftrec_closed Extracted.rcfg = true /\
@@ -420,3 +420,284 @@ Theorem C07_closed_form_instance :
   end.
 Proof. exact sum_closed_form. Qed.
 Print Assumptions C07_closed_form_instance.
+
+(* ---- several recursive alternatives first:  A = l1:A x1... | l2:A x2... | ... | b...  (UsualShapeN.v) ------
+   e.g.  Expr = left:*Expr '+' n:Num | left:*Expr '-' n:Num | n:Num.  Provided nothing is skipped at the entry
+   and the rests xi... refer to rules of a clean set only, the recursive field of EVERY recursive alternative
+   evaluates to the loop's current best result: the body of a turn is `rec_loop` - on the seed turn every
+   recursive alternative fails with the sentinel and the other alternatives are tried; on a growth turn the
+   rests are tried in order from the previous result's end state with their field bound to the previous
+   result, the first that matches is the turn's result, and when all fail the other alternatives are tried
+   (C07_usualN_body, exact for every bound, hooks, tracer); C07_usualN_turn is the loop equation with that
+   body; C07_usualN_instance: a grammar with '+' and '-' meets the hypotheses, 1-2+3 is ((1-2)+3). *)
+Theorem C07_usualN_body :
+  forall (ustate : Type) (scfg : state_cfg) (tcfg : term_cfg) (fcfg : fields_cfg) 
+    (rcfg : rule_cfg) (hk : hooks ustate) (g : grammar) (A : rule),
+  find_grule g (r_name A) = Some (GRule A) ->
+  fl_left_recursive (flags_of (r_directives A)) = true ->
+  forall (recs : list ralt) (balts : list expr) (al1 al2 : expr) (alr : list expr),
+  map (ralt_e A) recs ++ balts = al1 :: al2 :: alr ->
+  r_def A = adefN A recs balts ->
+  forall rf fds : list fdesc,
+  get_fields fcfg (gf_fuel g) g (adefN A recs balts) = GFOk rf ->
+  filt fcfg g (actx A rf) (adefN A recs balts) = Some fds ->
+  forall fds1_of inner_of : ralt -> list fdesc,
+  (forall r : ralt,
+   In r recs ->
+   filt fcfg g (actx A rf) (ralt_e A r) = Some (fds1_of r) /\
+   own_fields fcfg g (ralt_e A r) = Some (inner_of r)) ->
+  forall clean : name -> bool,
+  (forall n : name, clean n = true -> rule_clean g clean n) ->
+  (forall (n : name) (r : rule),
+   clean n = true -> find_rule g n = Some r -> eclean clean (r_def r) = true) ->
+  clean n_Whitespace = true ->
+  (forall r : ralt, In r recs -> lclean clean (ra_x1 r :: ra_xs r) = true) ->
+  forall (k : nat) (st : pstate) (gl : glob ustate) (c : cached),
+  ws_trivial g A rf st ->
+  cache_get (r_name A) (off st) (g_cache gl) = Some c ->
+  rule_body ustate scfg fcfg hk g (run ustate scfg tcfg fcfg rcfg hk g (S (S (S (S k))))) A st gl =
+  finish ustate scfg hk A rf st
+    (rec_loop ustate scfg tcfg fcfg rcfg hk g A balts rf fds fds1_of inner_of k c recs st gl).
+Proof. exact usualN_body_eq. Qed.
+Print Assumptions C07_usualN_body.
+
+Theorem C07_usualN_turn :
+  forall (ustate : Type) (scfg : state_cfg) (tcfg : term_cfg) (fcfg : fields_cfg) 
+    (rcfg : rule_cfg) (hk : hooks ustate) (g : grammar) (A : rule),
+  find_grule g (r_name A) = Some (GRule A) ->
+  fl_left_recursive (flags_of (r_directives A)) = true ->
+  forall (recs : list ralt) (balts : list expr) (al1 al2 : expr) (alr : list expr),
+  map (ralt_e A) recs ++ balts = al1 :: al2 :: alr ->
+  r_def A = adefN A recs balts ->
+  forall rf fds : list fdesc,
+  get_fields fcfg (gf_fuel g) g (adefN A recs balts) = GFOk rf ->
+  filt fcfg g (actx A rf) (adefN A recs balts) = Some fds ->
+  forall fds1_of inner_of : ralt -> list fdesc,
+  (forall r : ralt,
+   In r recs ->
+   filt fcfg g (actx A rf) (ralt_e A r) = Some (fds1_of r) /\
+   own_fields fcfg g (ralt_e A r) = Some (inner_of r)) ->
+  forall clean : name -> bool,
+  (forall n : name, clean n = true -> rule_clean g clean n) ->
+  (forall (n : name) (r : rule),
+   clean n = true -> find_rule g n = Some r -> eclean clean (r_def r) = true) ->
+  clean n_Whitespace = true ->
+  (forall r : ralt, In r recs -> lclean clean (ra_x1 r :: ra_xs r) = true) ->
+  forall (k : nat) (st : pstate) (best : cached) (gl : glob ustate),
+  ws_trivial g A rf st ->
+  cache_get (r_name A) (off st) (g_cache gl) = Some best ->
+  ev_grow (run ustate scfg tcfg fcfg rcfg hk g (S (S (S (S (S k)))))) A st best gl =
+  (let (m, gl2) :=
+     finish ustate scfg hk A rf st
+       (rec_loop ustate scfg tcfg fcfg rcfg hk g A balts rf fds fds1_of inner_of k best recs st
+          (trace ustate (TInfo 2) gl)) in
+   match m with
+   | MOk v st' =>
+       match best with
+       | COk _ bst =>
+           if is_further_than scfg st' bst
+           then
+            ev_grow (run ustate scfg tcfg fcfg rcfg hk g (S (S (S (S k))))) A st 
+              (COk v st') (cache_put ustate (r_name A) (off st) (COk v st') gl2)
+           else (of_cached best, gl2)
+       | CErr _ =>
+           ev_grow (run ustate scfg tcfg fcfg rcfg hk g (S (S (S (S k))))) A st 
+             (COk v st') (cache_put ustate (r_name A) (off st) (COk v st') gl2)
+       end
+   | MErr e =>
+       if leftrec_closed rcfg
+       then
+        match best with
+        | COk _ _ => (of_cached best, gl2)
+        | CErr _ => (MErr e, cache_put ustate (r_name A) (off st) (CErr e) gl2)
+        end
+       else (MErr e, gl2)
+   | MPanic p => (MPanic p, gl2)
+   | MFuel => (MFuel, gl2)
+   end).
+Proof. exact usualN_turn. Qed.
+Print Assumptions C07_usualN_turn.
+
+Theorem C07_usualN_instance :
+  forall (k : nat) (st : pstate) (gl : glob unit) (c : cached),
+  ws_trivial g_pm rS rf_pm st ->
+  cache_get nS (off st) (g_cache gl) = Some c ->
+  rule_body unit scfg_doc fields_cfg_doc no_hooks g_pm
+    (run unit scfg_doc term_cfg_expected fields_cfg_doc rcfg_doc no_hooks g_pm (S (S (S (S k))))) rS st
+    gl =
+  finish unit scfg_doc no_hooks rS rf_pm st
+    (rec_loop unit scfg_doc term_cfg_expected fields_cfg_doc rcfg_doc no_hooks g_pm rS [b_num] rf_pm
+       fds_pm fds1_pm inner_pm k c [ra_plus; ra_minus] st gl).
+Proof. exact pm_is_usualN. Qed.
+Print Assumptions C07_usualN_instance.
+
+Theorem C07_usualN_instance_left_nested :
+  exists st : pstate,
+    fst
+      (m_parse unit scfg_doc term_cfg_expected fields_cfg_doc rcfg_doc no_hooks g_pm 80 nS
+         [49%N; 45%N; 50%N; 43%N; 51%N] tt) = MOk (nodeS (nodeS (leafS 49) 50) 51) st /\ 
+    off st = 5.
+Proof. exact pm_left_nested. Qed.
+Print Assumptions C07_usualN_instance_left_nested.
+
+(* ---- ... and the closed form for several recursive alternatives: the extension X tries the rests xi... in
+   order (ordered choice) from the previous result's end state, each with its field bound to the previous
+   result.  With the other alternatives over the clean set too, stateless hooks and the source's decision
+   points: what the parse returns was produced by turns of `rec_loop` (C07_usualN_parse), X is a partial
+   function of the position (C07_extensionN_is_a_function), the parse of A fails iff the base fails and
+   otherwise returns the end of the unique chain  B X ... X  with strictly increasing offsets at which X fails
+   or does not progress (C07_closed_formN, C07_greedyN_unique); C07_closed_formN_instance: the '+' / '-'
+   grammar meets the hypotheses. *)
+Theorem C07_usualN_parse :
+  forall (ustate : Type) (scfg : state_cfg) (tcfg : term_cfg) (fcfg : fields_cfg) 
+    (rcfg : rule_cfg) (hk : hooks ustate) (g : grammar) (A : rule),
+  find_grule g (r_name A) = Some (GRule A) ->
+  fl_left_recursive (flags_of (r_directives A)) = true ->
+  forall (recs : list ralt) (balts : list expr) (al1 al2 : expr) (alr : list expr),
+  map (ralt_e A) recs ++ balts = al1 :: al2 :: alr ->
+  r_def A = adefN A recs balts ->
+  forall rf fds : list fdesc,
+  get_fields fcfg (gf_fuel g) g (adefN A recs balts) = GFOk rf ->
+  filt fcfg g (actx A rf) (adefN A recs balts) = Some fds ->
+  forall fds1_of inner_of : ralt -> list fdesc,
+  (forall r : ralt,
+   In r recs ->
+   filt fcfg g (actx A rf) (ralt_e A r) = Some (fds1_of r) /\
+   own_fields fcfg g (ralt_e A r) = Some (inner_of r)) ->
+  forall clean : name -> bool,
+  (forall n : name, clean n = true -> rule_clean g clean n) ->
+  (forall (n : name) (r : rule),
+   clean n = true -> find_rule g n = Some r -> eclean clean (r_def r) = true) ->
+  clean n_Whitespace = true ->
+  (forall r : ralt, In r recs -> lclean clean (ra_x1 r :: ra_xs r) = true) ->
+  forall (r1 : ralt) (recs' : list ralt),
+  recs = r1 :: recs' ->
+  forall st : pstate,
+  ws_trivial g A rf st ->
+  forall (F : nat) (gl : glob ustate) (r : mres value) (gl' : glob ustate),
+  cache_get (r_name A) (off st) (g_cache gl) = None ->
+  ev_rule (run ustate scfg tcfg fcfg rcfg hk g F) (r_name A) st gl = (r, gl') ->
+  let sentinel := CErr (report_error scfg st LeftRecursionSentinel) in
+  match r with
+  | MOk v s' =>
+      ProducedN ustate scfg tcfg fcfg rcfg hk g A recs balts rf fds fds1_of inner_of st sentinel v s'
+  | MErr e =>
+      leftrec_closed rcfg = true ->
+      exists (k : nat) (gl0 gl1 : glob ustate),
+        bodyN ustate scfg tcfg fcfg rcfg hk g A recs balts rf fds fds1_of inner_of k st sentinel gl0 =
+        (MErr e, gl1)
+  | _ => True
+  end.
+Proof. exact usualN_parse. Qed.
+Print Assumptions C07_usualN_parse.
+
+Theorem C07_closed_formN :
+  forall (ustate : Type) (scfg : state_cfg) (tcfg : term_cfg) (fcfg : fields_cfg) 
+    (rcfg : rule_cfg) (hk : hooks ustate) (g : grammar) (A : rule),
+  find_grule g (r_name A) = Some (GRule A) ->
+  fl_left_recursive (flags_of (r_directives A)) = true ->
+  forall (recs : list ralt) (balts : list expr) (al1 al2 : expr) (alr : list expr),
+  map (ralt_e A) recs ++ balts = al1 :: al2 :: alr ->
+  r_def A = adefN A recs balts ->
+  forall rf fds : list fdesc,
+  get_fields fcfg (gf_fuel g) g (adefN A recs balts) = GFOk rf ->
+  filt fcfg g (actx A rf) (adefN A recs balts) = Some fds ->
+  forall fds1_of inner_of : ralt -> list fdesc,
+  (forall r : ralt,
+   In r recs ->
+   filt fcfg g (actx A rf) (ralt_e A r) = Some (fds1_of r) /\
+   own_fields fcfg g (ralt_e A r) = Some (inner_of r)) ->
+  forall clean : name -> bool,
+  (forall n : name, clean n = true -> rule_clean g clean n) ->
+  (forall (n : name) (r : rule),
+   clean n = true -> find_rule g n = Some r -> eclean clean (r_def r) = true) ->
+  clean n_Whitespace = true ->
+  (forall r : ralt, In r recs -> lclean clean (ra_x1 r :: ra_xs r) = true) ->
+  forall (r1 : ralt) (recs' : list ralt),
+  recs = r1 :: recs' ->
+  lclean clean balts = true ->
+  (forall u u' : ustate, u = u') ->
+  further_gt scfg = true ->
+  leftrec_closed rcfg = true ->
+  forall st : pstate,
+  ws_trivial g A rf st ->
+  forall (F : nat) (gl : glob ustate) (r : mres value) (gl' : glob ustate),
+  cache_get (r_name A) (off st) (g_cache gl) = None ->
+  ev_rule (run ustate scfg tcfg fcfg rcfg hk g F) (r_name A) st gl = (r, gl') ->
+  match r with
+  | MOk v s =>
+      exists (v0 : value) (s0 : pstate),
+        BokN ustate scfg tcfg fcfg rcfg hk g A balts rf fds st v0 s0 /\
+        StarN ustate scfg tcfg fcfg rcfg hk g A recs rf fds fds1_of inner_of st v0 s0 v s /\
+        StopN ustate scfg tcfg fcfg rcfg hk g A recs rf fds fds1_of inner_of st v s
+  | MErr _ => BfailN ustate scfg tcfg fcfg rcfg hk g A balts rf fds st
+  | _ => True
+  end.
+Proof. exact closed_formN. Qed.
+Print Assumptions C07_closed_formN.
+
+Theorem C07_extensionN_is_a_function :
+  forall (ustate : Type) (scfg : state_cfg) (tcfg : term_cfg) (fcfg : fields_cfg) 
+    (rcfg : rule_cfg) (hk : hooks ustate) (g : grammar) (A : rule) (recs : list ralt)
+    (rf fds : list fdesc) (fds1_of inner_of : ralt -> list fdesc) (clean : name -> bool),
+  (forall n : name, clean n = true -> rule_clean g clean n) ->
+  (forall (n : name) (r : rule),
+   clean n = true -> find_rule g n = Some r -> eclean clean (r_def r) = true) ->
+  clean n_Whitespace = true ->
+  (forall r : ralt, In r recs -> lclean clean (ra_x1 r :: ra_xs r) = true) ->
+  (forall u u' : ustate, u = u') ->
+  forall (st : pstate) (v : value) (s : pstate) (v1 : value) (s1 : pstate) (v2 : value) (s2 : pstate),
+  XokN ustate scfg tcfg fcfg rcfg hk g A recs rf fds fds1_of inner_of st v s v1 s1 ->
+  XokN ustate scfg tcfg fcfg rcfg hk g A recs rf fds fds1_of inner_of st v s v2 s2 ->
+  v1 = v2 /\ Rst s1 s2.
+Proof. exact XokN_fun. Qed.
+Print Assumptions C07_extensionN_is_a_function.
+
+Theorem C07_greedyN_unique :
+  forall (ustate : Type) (scfg : state_cfg) (tcfg : term_cfg) (fcfg : fields_cfg) 
+    (rcfg : rule_cfg) (hk : hooks ustate) (g : grammar) (A : rule) (recs : list ralt),
+  list expr ->
+  forall (rf fds : list fdesc) (fds1_of inner_of : ralt -> list fdesc),
+  (forall r : ralt,
+   In r recs ->
+   filt fcfg g (actx A rf) (ralt_e A r) = Some (fds1_of r) /\
+   own_fields fcfg g (ralt_e A r) = Some (inner_of r)) ->
+  forall clean : name -> bool,
+  (forall n : name, clean n = true -> rule_clean g clean n) ->
+  (forall (n : name) (r : rule),
+   clean n = true -> find_rule g n = Some r -> eclean clean (r_def r) = true) ->
+  clean n_Whitespace = true ->
+  (forall r : ralt, In r recs -> lclean clean (ra_x1 r :: ra_xs r) = true) ->
+  ralt ->
+  (forall u u' : ustate, u = u') ->
+  forall (st : pstate) (v : value) (s : pstate) (va : value) (sa : pstate) (vb : value) (sb : pstate),
+  StarN ustate scfg tcfg fcfg rcfg hk g A recs rf fds fds1_of inner_of st v s va sa ->
+  StopN ustate scfg tcfg fcfg rcfg hk g A recs rf fds fds1_of inner_of st va sa ->
+  StarN ustate scfg tcfg fcfg rcfg hk g A recs rf fds fds1_of inner_of st v s vb sb ->
+  StopN ustate scfg tcfg fcfg rcfg hk g A recs rf fds fds1_of inner_of st vb sb -> va = vb /\ Rst sa sb.
+Proof. exact greedyN_unique. Qed.
+Print Assumptions C07_greedyN_unique.
+
+Theorem C07_closed_formN_instance :
+  forall st : pstate,
+  ws_trivial g_pm rS rf_pm st ->
+  forall (F : nat) (gl : glob unit) (r : mres value) (gl' : glob unit),
+  cache_get nS (off st) (g_cache gl) = None ->
+  ev_rule (run unit scfg_doc term_cfg_expected fields_cfg_doc rcfg_doc no_hooks g_pm F) nS st gl =
+  (r, gl') ->
+  match r with
+  | MOk v s =>
+      exists (v0 : value) (s0 : pstate),
+        BokN unit scfg_doc term_cfg_expected fields_cfg_doc rcfg_doc no_hooks g_pm rS [b_num] rf_pm
+          fds_pm st v0 s0 /\
+        StarN unit scfg_doc term_cfg_expected fields_cfg_doc rcfg_doc no_hooks g_pm rS
+          [ra_plus; ra_minus] rf_pm fds_pm fds1_pm inner_pm st v0 s0 v s /\
+        StopN unit scfg_doc term_cfg_expected fields_cfg_doc rcfg_doc no_hooks g_pm rS
+          [ra_plus; ra_minus] rf_pm fds_pm fds1_pm inner_pm st v s
+  | MErr _ =>
+      BfailN unit scfg_doc term_cfg_expected fields_cfg_doc rcfg_doc no_hooks g_pm rS [b_num] rf_pm
+        fds_pm st
+  | _ => True
+  end.
+Proof. exact pm_closed_form. Qed.
+Print Assumptions C07_closed_formN_instance.
